@@ -49,6 +49,17 @@ CHECKS["C07"] = dict(
          "guarantee (symmetric, >= m neighbours); threshold_std and normalize are not driven.",
     ref="6/C07")
 
+CHECKS["C13"] = dict(
+    technique="TLA+ state machine (DataSM) + TLC-enumerated window histories replayed on ClimateData + TLC trace validation through the DataSM actions (Val_C13)",
+    text="DataSM specifies Data/ClimateData as a state machine whose only mutable abstract state is the current selection; Gen_C13 "
+         "enumerates its behaviours (Construct, then <=3 SetWindow/SetGlobalWindow steps over an alphabet with bounds on, between and "
+         "outside samples and the equal-bounds conventions; cycles 1..4, both anomalies flags); each behaviour is replayed on the real "
+         "object, all observations are recorded after every step, and TLC replays the trace through the DataSM actions deciding "
+         "WindowDef, Shapes, PhaseDef, AnomalyDef (zero phase sums, anomaly + phase mean = observable) at every step.",
+    note="Integer observables/coordinates (exact in float32 grids); windows selecting no sample or node are outside the scope; "
+         "Data.Load / NetCDF input is not driven.",
+    ref="6/C13")
+
 NOT_APPLICABLE = {
     "C20": "memory safety of compiled kernels is a property of concrete addresses, not of abstract state a TLA+ "
            "specification maintains; nothing binds a PlusCal transcription of index arithmetic to the compiled code "
